@@ -68,11 +68,19 @@ class EngineC08(HistEngine):
         g = gen_call.CallGen(ch, cfg, str(index % 100000))
         nfun = ch.randint(1, 4, "nfun")
         funcs = [g.gen_function() for _ in range(nfun)]
-        if ch.chance(1, 3, "clone"):
+        twin = None
+        if ch.chance(1, 2, "clone"):
             twin = g.clone_with_other_return_type(ch.choice(funcs, "clone-of"))
             if twin is not None:
                 funcs.append(twin)
         callers = [g.gen_caller() for _ in range(ch.randint(1, 4, "ncall"))]
+        # routines of special shapes get a caller that exercises the shape
+        if twin is not None and all(pt[0] != "ext" for pt, _ in twin["params"]) and ch.chance(2, 3, "call-twin"):
+            callers.append(g.gen_caller(force_func=twin))
+        if any(f["kind"] == "mixed_sign" for f in funcs) and ch.chance(2, 3, "call-mixed"):
+            callers.append(g.gen_caller(force_form="same_arg"))
+        if any(f["kind"] in ("void_write", "ext_write_ret") for f in funcs) and ch.chance(1, 2, "call-byref"):
+            callers.append(g.gen_caller(force_form=ch.choice(["void_call", "branch_call", "two_byref_calls"], "byref-form")))
         for _ in range(ch.randint(0, 2, "nfixed")):
             t = ch.choice(FIXED_CALLERS, "fixed")
             if cfg == "A" and "mask" in t:
